@@ -51,6 +51,30 @@ type Trace struct {
 	Stdout     string
 }
 
+// HistoryOps returns, per operation of the history, the events between its
+// marker and the next one (or the begin marker).
+func (t *Trace) HistoryOps() [][]Event {
+	var out [][]Event
+	start := -1
+	end := t.Begin
+	if !t.HasBegin {
+		end = len(t.Events)
+	}
+	for i := 0; i < end; i++ {
+		ev := t.Events[i]
+		if (strings.HasPrefix(ev.Name, "faccessat") || ev.Name == "access") && len(ev.Paths) > 0 && ev.Paths[0] == MarkOp {
+			if start >= 0 {
+				out = append(out, t.Events[start+1:i])
+			}
+			start = i
+		}
+	}
+	if start >= 0 {
+		out = append(out, t.Events[start+1:end])
+	}
+	return out
+}
+
 // Window returns the events strictly between the markers.
 func (t *Trace) Window() []Event {
 	if !t.HasBegin {
@@ -214,10 +238,14 @@ func (n *Namer) Name(rel string) string {
 		return "I"
 	case strings.HasPrefix(rel, "index.json") && !strings.Contains(rel, "/"):
 		return "IT"
-	case rel == "blobs" || rel == "blobs/sha256" || rel == "ingest":
+	case strings.HasPrefix(rel, "oci-layout") && !strings.Contains(rel, "/"):
+		return "LT"
+	case rel == "blobs" || rel == "blobs/sha256" || rel == "blobs/sha512" || rel == "ingest":
 		return rel
-	case strings.HasPrefix(rel, "blobs/sha256/"):
-		if id, ok := n.ByHex[rel[len("blobs/sha256/"):]]; ok {
+	case strings.HasPrefix(rel, "blobs/sha256/") || strings.HasPrefix(rel, "blobs/sha512/"):
+		// the hex strings of the two algorithms differ in length, so one table serves both;
+		// a blob filed under the wrong algorithm directory is not recognised
+		if id, ok := n.ByHex[rel[len("blobs/sha256/"):]]; ok && (len(rel)-len("blobs/sha256/") == 128) == strings.HasPrefix(rel, "blobs/sha512/") {
 			return "B" + strconv.Itoa(id)
 		}
 	case strings.HasPrefix(rel, "ingest/"):
